@@ -491,8 +491,9 @@ func (f *DefaultFanController) calculateTargetPwm() (int, error) {
 				oldMinPwm := minPwm
 				ui.Warning("Increasing minPWM of %s from %d to %d, which is supposed to never stop, but RPM is %d at PWM %d",
 					fan.GetId(), oldMinPwm, oldMinPwm+1, int(avgRpm), lastSetPwm)
+				// the offset is added on top of the fan's minPwm (see above), so the
+				// fan's own minPwm must be left alone or the raised floor drops again
 				f.increaseMinPwmOffset()
-				fan.SetMinPwm(f.minPwmOffset, true)
 				target++
 
 				// set the moving avg to a value > 0 to prevent
